@@ -38,8 +38,8 @@ import (
 	"github.com/libp2p/go-libp2p/core/protocol"
 	"github.com/libp2p/go-libp2p/p2p/host/eventbus"
 	"github.com/libp2p/go-libp2p/p2p/host/peerstore/pstoremem"
-	ma "github.com/multiformats/go-multiaddr"
 	"github.com/multiformats/go-base32"
+	ma "github.com/multiformats/go-multiaddr"
 	mh "github.com/multiformats/go-multihash"
 	"google.golang.org/protobuf/proto"
 
@@ -91,16 +91,16 @@ type c05Host struct {
 	net *c05Net
 }
 
-func (h *c05Host) ID() peer.ID                                          { return h.id }
-func (h *c05Host) Peerstore() peerstore.Peerstore                       { return h.ps }
-func (h *c05Host) Addrs() []ma.Multiaddr                                { return nil }
-func (h *c05Host) Network() network.Network                             { return h.net }
-func (h *c05Host) ConnManager() connmgr.ConnManager                     { return connmgr.NullConnMgr{} }
-func (h *c05Host) EventBus() event.Bus                                  { return h.bus }
-func (h *c05Host) SetStreamHandler(protocol.ID, network.StreamHandler)  {}
-func (h *c05Host) RemoveStreamHandler(protocol.ID)                      {}
-func (h *c05Host) Close() error                                         { return nil }
-func (h *c05Host) Connect(context.Context, peer.AddrInfo) error         { return errors.New("c05: no network") }
+func (h *c05Host) ID() peer.ID                                         { return h.id }
+func (h *c05Host) Peerstore() peerstore.Peerstore                      { return h.ps }
+func (h *c05Host) Addrs() []ma.Multiaddr                               { return nil }
+func (h *c05Host) Network() network.Network                            { return h.net }
+func (h *c05Host) ConnManager() connmgr.ConnManager                    { return connmgr.NullConnMgr{} }
+func (h *c05Host) EventBus() event.Bus                                 { return h.bus }
+func (h *c05Host) SetStreamHandler(protocol.ID, network.StreamHandler) {}
+func (h *c05Host) RemoveStreamHandler(protocol.ID)                     {}
+func (h *c05Host) Close() error                                        { return nil }
+func (h *c05Host) Connect(context.Context, peer.AddrInfo) error        { return errors.New("c05: no network") }
 
 type c05Sender struct{}
 
@@ -882,7 +882,9 @@ func (r *c05Run) run(t *testing.T) {
 
 var c05Keys = []string{"/v/a1", "/v/b1", "/v/c2"} // the first two share a lock stripe
 
-func c05Val(seq, tag, flags, owner int) []byte { return []byte{byte(seq), byte(tag), byte(flags), byte(owner)} }
+func c05Val(seq, tag, flags, owner int) []byte {
+	return []byte{byte(seq), byte(tag), byte(flags), byte(owner)}
+}
 
 func c05MakeInit(key string, recKey string, val []byte, age int64, kind string) c05Init {
 	var raw []byte
